@@ -65,6 +65,10 @@ def ab_pairs():
         U.nice_float(-0.95, 0.95).map(lambda a: [a, -a]),
         U.nice_float(-0.95, -0.05).map(lambda a: [a, -1.0 - a]),
         st.tuples(st.integers(0, 6), st.integers(0, 6)).map(list),
+        # next to, but not on, the two special lines (e.g. alpha = 0.1 + 0.2, beta = -0.3): formulas that divide by
+        # alpha + beta (+1) after an exact == test cancel catastrophically here
+        st.tuples(U.nice_float(-0.95, 0.95), st.sampled_from([5.5e-17, -1.1e-16, 1e-15, 1e-12, -1e-9, 1e-6])).map(lambda t: [t[0], -t[0] + t[1]]),
+        st.tuples(U.nice_float(-0.95, -0.05), st.sampled_from([1.1e-16, -2.2e-16, 1e-12, -1e-9, 1e-6])).map(lambda t: [t[0], -1.0 - t[0] + t[1]]),
     )
 
 
@@ -75,6 +79,8 @@ def ab_class(a, b):
         return 'ab:sum=0'
     if a + b == -1:
         return 'ab:sum=-1'
+    if abs(a + b) < 1e-5 or abs(a + b + 1) < 1e-5:
+        return 'ab:near-special-line'
     if float(a).is_integer() and float(b).is_integer():
         return 'ab:integer'
     return 'ab:general'
